@@ -35,7 +35,7 @@ def _guards(fnode, node):
 
 
 # --------------------------------------------------------------------------------------- SZ1
-@rule("SZ1", ["C04"], "caches computed from the list's size value are invalidated once the solver has written the size", engine="DF", floor=2)
+@rule("SZ1", ["C04", "C03", "C16"], "caches computed from the list's size value are invalidated once the solver has written the size", engine="DF", floor=2)
 def sz1(prog, rr):
     fam = prog.cls("FieldArrayModel")
     caches = {}
